@@ -62,6 +62,9 @@ def cells(tier, seed):
         for na in range(0, b["set_list_len"] + 1):
             for nb in range(0, 3):
                 out.append({"k": "sets", "f": f, "na": na, "nb": nb})
+    from harness.common import SEQ_SET_OPS
+    for first in range(len(SEQ_SET_OPS)):
+        out.append({"k": "setseq", "first": first, "n": 3 if tier == "quick" else 4})
     for y in range(0, b["pow_exponent"] + 1):
         out.append({"k": "pow", "y": y})
     out.append({"k": "powwitness"})
@@ -110,6 +113,8 @@ def run(ctx, cell):
         return run_mean(ctx, cell)
     if k == "sets":
         return run_sets(ctx, cell)
+    if k == "setseq":
+        return run_setseq(ctx, cell)
     if k in ("pow", "powwitness", "abssign", "gcd"):
         return run_exact(ctx, cell)
     if k == "bits":
@@ -281,6 +286,35 @@ def run_sets(ctx, cell):
     exp = vset([x for x in a + b if pred(x)])
     ctx.check(out.value.isSet(), key + ":result-not-a-set", detail)
     ctx.check(out.value == exp, key + ":not-the-set-operation", detail)
+    return out
+
+
+def run_setseq(ctx, cell):
+    """set algebra must see the CURRENT elements of a set that has been enumerated and mutated"""
+    ctx.reach("sets")
+    from harness.common import SEQ_SET_OPS, seq_model
+    idx = [cell["first"]] + [ctx.choice("op%d" % i, len(SEQ_SET_OPS)) for i in range(1, cell["n"])]
+    ops = [SEQ_SET_OPS[i] for i in idx]
+    prog = ("def s = <<1, 3, 4>>; " + "; ".join("do %s catch all NULL end" % o for o in ops) +
+            "; def t = <<2, 3, 5, 9>>; [union(s, <<>>), intersection(s, t), diff(s, t), symmetric_diff(s, t), "
+            "union(t, s), unique(list(s)), sorted(s), [x in s for x in [1, 2, 3, 4, 5]]]")
+    out = run_ckl(prog)
+    cur = set(seq_model("set", ops))
+    t = {2, 3, 5, 9}
+    detail = {"program": prog, "got": ctx.plain(out), "current_elements": sorted(cur)}
+    if out.kind != "ok":
+        fail_out(ctx, "C19:setseq", out, detail)
+        return out
+    u, i, d, sd, u2, uq, so, mem = out.value.value
+    mk = lambda xs: vset([vint(x) for x in xs])
+    ctx.check(u == mk(cur), "C19:setseq:union-after-mutation", detail)
+    ctx.check(i == mk(cur & t), "C19:setseq:intersection-after-mutation", detail)
+    ctx.check(d == mk(cur - t), "C19:setseq:diff-after-mutation", detail)
+    ctx.check(sd == mk(cur ^ t), "C19:setseq:symmetric_diff-after-mutation", detail)
+    ctx.check(u2 == mk(cur | t), "C19:setseq:union-after-mutation", detail)
+    ctx.check(uq == ilist(sorted(cur)), "C19:setseq:unique-after-mutation", detail)
+    ctx.check(so == ilist(sorted(cur)), "C19:setseq:sorted-after-mutation", detail)
+    ctx.check([m.value for m in mem.value] == [x in cur for x in [1, 2, 3, 4, 5]], "C19:setseq:membership-after-mutation", detail)
     return out
 
 
